@@ -236,3 +236,12 @@ Print Assumptions C11_nonvacuous_handover_copy.
 Theorem C11_seed_r4_3_refuted : check seed_handoff_table = false /\ check fixed_handoff_table = true.
 Proof. exact seed_handoff_refuted. Qed.
 Print Assumptions C11_seed_r4_3_refuted.
+
+(* a borrowed message parameter captured by a goroutine (location "<Func>.<param>.*"): the goroutine's use and
+   the owner's next write after the function returned are unordered unless the function waits for the goroutine
+   (rows of self-mutation M4: the handler goroutine of a unary Invoke reads args itself) *)
+Theorem C11_borrowed_parameter_refuted : check lend_table = false /\ check lend_waited_table = true /\
+  why lend_waited_table (nth 0 (t_sites lend_waited_table) h_recv) (nth 1 (t_sites lend_waited_table) h_recv)
+    = Some (RWaitGroup "wg:wg@wrap.wrapper.Invoke@62"%string).
+Proof. exact lend_refuted. Qed.
+Print Assumptions C11_borrowed_parameter_refuted.
